@@ -37,6 +37,8 @@ class ModBase(BaseException): pass
 class ModSubVal(ValueError): pass
 class Outer:
     class Nested(Exception): pass
+    class NestedFalsy(Exception):
+        def __bool__(self): return False
     class Inner:
         class Deep(KeyError): pass
 class Rewrites(Exception):
@@ -68,10 +70,58 @@ class Mixin: pass
 class MixinArgs:
     def __init__(self, *a): self.a = a
 class ModMixin(Mixin, Exception): pass
+# --- exception classes whose INSTANCES are falsy (or cannot be tested for truth at all): "is there an exception / a
+# cause / a context / a candidate" must be decided by `is None`, never by the truth value of the object
 class FalsyLen(Exception):
     def __len__(self): return 0
 class FalsyBool(Exception):
     def __bool__(self): return False
+class FalsySubVal(ValueError):
+    def __bool__(self): return False
+class FalsyBase(BaseException):
+    def __len__(self): return 0
+class LenArgs(Exception):
+    """container-like: len() = number of args - an instance without args is falsy, one with args is not"""
+    def __len__(self): return len(self.args)
+class BoolRaises(Exception):
+    """its truth value cannot even be taken"""
+    def __bool__(self): raise RuntimeError("bool")
+class LenNegative(Exception):
+    """bool() raises ValueError: __len__() should return >= 0"""
+    def __len__(self): return -1
+class FalsyTwoPos(TwoPos):
+    def __bool__(self): return False
+class FalsyRewrites(Rewrites):
+    def __len__(self): return 0
+class FalsyWithLock(WithLock):
+    def __bool__(self): return False
+class FalsyStrRaises(StrRaises):
+    def __len__(self): return 0
+class FalsyMixin(Mixin, Exception):
+    def __len__(self): return 0
+class FalsyEq(Exception):
+    """value equality AND falsy"""
+    def __eq__(self, o): return type(o) is type(self) and o.args == self.args
+    def __hash__(self): return 11
+    def __bool__(self): return False
+@dataclasses.dataclass
+class FalsyData(Exception):
+    """a dataclass exception (generated __eq__, unhashable) that is falsy while its count is 0 - here: always"""
+    code: object
+    def __len__(self): return 0
+def make_falsy_locals():
+    class LocalFalsy(Exception):
+        def __bool__(self): return False
+    class LocalSubFalsy(FalsyLen): pass              # not picklable itself, its nearest base is - and is falsy
+    class LocalSubFalsyVal(FalsySubVal): pass
+    class LocalFalsyMixin(MixinArgs, Exception):
+        def __len__(self): return 0
+    class LocalFalsyEq(FalsyEq): pass
+    class LocalTruthySub(FalsyLen):                  # truthy itself - its nearest picklable base class is falsy
+        def __len__(self): return 1
+    return LocalFalsy, LocalSubFalsy, LocalSubFalsyVal, LocalFalsyMixin, LocalFalsyEq, LocalTruthySub
+def _zero(self): return 0
+def _false(self): return False
 class HttpError(Exception):
     """pickles (by reference + args) but does not UNpickle: cls(*args) does not fit the signature"""
     def __init__(self, status, reason):
@@ -152,10 +202,21 @@ def make_table(zoo):
               "ExceptionGroup LookupError").split():
         t[n] = getattr(builtins, n)
     for n in ("ModLevel ModBase ModSubVal Rewrites KwOnly TwoPos ExtraPos SubRewrites SubTwoPos WithLock StrRaises "
-              "ReduceBad FalsyLen FalsyBool EqHash EqNoHash EqTrue EqRaises SubEqVal DataExc DataHashExc").split():
+              "ReduceBad FalsyLen FalsyBool EqHash EqNoHash EqTrue EqRaises SubEqVal DataExc DataHashExc "
+              "FalsySubVal FalsyBase LenArgs BoolRaises LenNegative FalsyTwoPos FalsyRewrites FalsyWithLock FalsyStrRaises "
+              "FalsyMixin FalsyEq FalsyData").split():
         t[n] = getattr(zoo, n)
     LocalEq, LocalData = zoo.make_eq_locals()
+    LocalFalsy, LocalSubFalsy, LocalSubFalsyVal, LocalFalsyMixin, LocalFalsyEq, LocalTruthySub = zoo.make_falsy_locals()
     t.update({
+        "NestedFalsy": zoo.Outer.NestedFalsy, "LocalFalsy": LocalFalsy, "LocalSubFalsy": LocalSubFalsy,
+        "LocalSubFalsyVal": LocalSubFalsyVal, "LocalFalsyMixin": LocalFalsyMixin, "LocalFalsyEq": LocalFalsyEq,
+        "LocalTruthySub": LocalTruthySub,
+        "DynFalsy": type("DynFalsy", (Exception,), {"__module__": "nowhere.mod", "__len__": zoo._zero}),
+        "DynFalsyHere": type("DynFalsyHere", (ValueError,), {"__module__": ZOO_NAME, "__bool__": zoo._false}),
+        "DynFalsyNoMod": type("DynFalsyNoMod", (Exception,), {"__module__": None, "__len__": zoo._zero}),
+        "DynFalsyEq": type("DynFalsyEq", (Exception,), {"__module__": "nowhere.mod", "__eq__": zoo._dyn_eq,
+                                                        "__bool__": zoo._false}),
         "LocalEq": LocalEq, "LocalData": LocalData,
         "DynEq": type("DynEq", (Exception,), {"__module__": "nowhere.mod", "__eq__": zoo._dyn_eq}),
         "DynEqHere": type("DynEqHere", (KeyError,), {"__module__": ZOO_NAME, "__eq__": zoo._dyn_eq,
@@ -233,6 +294,7 @@ ARGS = {
     "bytes": lambda: b"\xff", "set": lambda: {1, 2}, "object": lambda: object(), "complex": lambda: 1 + 2j,
     "decimal": lambda: decimal.Decimal("1.5"), "datetime": lambda: datetime.datetime(2020, 1, 2, 3, 4, 5),
     "class": lambda: CLASSES["ModLevel"], "type": lambda: type, "excinst": lambda: ValueError("inner"),
+    "falsyexcinst": lambda: ZOO.FalsyLen("inner"),
     "frozenset": lambda: frozenset([1]), "range": lambda: range(3), "huge": lambda: 10**5000,
     "dictbytes": lambda: {"k": b"x"}, "circular": _circ, "tuplekey": lambda: {(1, 2): 3},
     # un-repr-able / un-str-able
@@ -457,10 +519,11 @@ def measure_node(e):
         if sup in UNWANTED:
             break
         okc, inst = tryf(lambda: sup(*args))
-        okj = bool(okc and tryf(lambda: json.loads(json.dumps(inst)))[0] and inst)
+        # (the truth value of the candidate plays no part: a falsy instance that round-trips is a candidate like any other)
+        okj = bool(okc and tryf(lambda: json.loads(json.dumps(inst)))[0])
         okp, back = tryf(lambda: pickle.loads(pickle.dumps(inst))) if okc else (False, None)
-        okp = bool(okp and inst)
         mro.append(dict(ok_json=okj, ok_pickle=okp, is_exc=issubclass(sup, BaseException),
+                        cand_falsy=bool(okc and tryf(lambda: bool(inst)) == (True, False)),
                         loaded=rel_args(back.args, args, ms) if okp and isinstance(back, BaseException) else "LMismatch"))
     n["mro"] = mro
     n["mro_classes"] = [c for c in getmro(cls)][:len(mro)]
@@ -474,7 +537,11 @@ def measure_node(e):
     n["own_ctor_ok"] = okc
     n["own_recon"] = bool(okc and type(inst) is cls and deep_eq(tuple(inst.args), args))
     n["importable"] = n["has_module"] and n["resolve"] == "RSelf"
-    n["truthy"] = tryf(lambda: bool(e))[1] is not False
+    # the truth value of the exception OBJECT (fact for the evidence distribution only: neither the model nor the oracle
+    # reads it - a falsy exception is an exception like any other)
+    okb, tv = tryf(lambda: bool(e))
+    n["bool_raises"] = not okb
+    n["truthy"] = not (okb and tv is False)
     return n
 
 
@@ -534,7 +601,7 @@ LOAD = {
 
 NODE_KEYS = ("name", "qualname", "module", "has_module", "resolve", "accepts_text", "accepts_dict",
              "recon_text", "recon_dict", "exc_rt_json", "exc_rt_pickle", "native", "native_same_class",
-             "mro", "wrap_rt_json", "wrap_rt_pickle", "own_ctor_ok", "own_recon", "importable", "truthy",
+             "mro", "wrap_rt_json", "wrap_rt_pickle", "own_ctor_ok", "own_recon", "importable", "truthy", "bool_raises",
              "eq_nodes", "eq_raises", "hashable")
 
 
@@ -583,7 +650,10 @@ def export_nodes(nodes, specs):
 
 def store(enc, excs):
     """("stored", payload) or the failure outcome"""
-    r = TaskiqResult(is_err=True, return_value=None, execution_time=0.0, error=excs[0])
+    try:
+        r = TaskiqResult(is_err=True, return_value=None, execution_time=0.0, error=excs[0])
+    except BaseException as x:  # noqa: B036 - building the result that is to be stored is part of storing it
+        return dict(o="store_fail", exc=type(x).__name__, msg=str(x)[:300], at="construct")
     if r.error is not excs[0]:
         return dict(o="construct_lost", detail=type(r.error).__name__)
     try:
